@@ -526,3 +526,45 @@ func init() {
 		IgnoreKinds: []string{"panic", "hang", "deadlock", "spin"},
 	}
 }
+
+func init() {
+	checks["C02"] = &CheckDef{
+		ID: "C02",
+		Jobs: func(tier string, p *Program) []*Job {
+			var jobs []*Job
+			add := func(mode string, n int, class, meta string) {
+				j := mkJob(".ZZ_C02_Typed", shellSetup, "mode", mode, "n", itoa(n), "class", class, "meta", meta)
+				j.Stubs = paintStubs
+				j.Reach = []string{"returned"}
+				jobs = append(jobs, j)
+			}
+			maxN := 2
+			if tier == "thorough" {
+				maxN = 3
+			}
+			for _, mode := range []string{"emacs", "vi-insert"} {
+				for n := 1; n <= maxN; n++ {
+					add(mode, n, "ascii", "default")
+					if n <= 1 || (tier == "thorough" && n <= 2) {
+						add(mode, n, "ascii", "sym")
+					}
+					if n <= 2 {
+						for _, class := range []string{"latin1", "bmp", "astral"} {
+							add(mode, n, class, "utf8")
+						}
+					}
+				}
+			}
+			return jobs
+		},
+		Assumptions: append([]string{
+			"typed text = n symbolic runes with unicode.IsPrint (exact range formula), split by class {ASCII, Latin-1, other BMP, astral}; delivered as UTF-8 in one read followed by Enter",
+			"ASCII is checked with every meta variable symbolic (convert-meta, input-meta, output-meta, meta-flag, enable-meta-key, byte-oriented); non-ASCII with convert-meta off, input-meta/output-meta on, as the statement fixes",
+			"autopairs and autocomplete are off (with them on the library inserts text by design)",
+		}, stepAssumptions[1:]...),
+		Stubs:  []string{"tty ioctls", "stdin = zzverif.Script", "stdout discarded"},
+		Bounds: map[string]string{"quick": "n <= 2 runes", "thorough": "n <= 3 (ASCII), n <= 2 (non-ASCII classes)"},
+		Rule:   "one state per completed symbolic path",
+		IgnoreKinds: []string{"panic", "hang", "deadlock", "spin"},
+	}
+}
